@@ -31,7 +31,8 @@ def run(prog, ctx):
     n_g = 0
     for adt, fld in FIXED:
         if adt not in prog.adts or not any(n == fld for n, t in prog.adts[adt]["variants"][0]["fields"]):
-            res.violate("C18.G", "C18.G|missing|%s.%s" % (adt, fld), "%s.%s no longer exists" % (adt, fld))
+            res.obligations += 1
+            res.undecided += 1      # private field renamed
             continue
         n_g += 1
         res.obligations += 1
@@ -67,7 +68,8 @@ def run(prog, ctx):
             uw = f
     n_k = 0
     if uw is None:
-        res.violate("C18.K", "C18.K|hll|missing", "no HllSketch method promotes a list to a set any more")
+        res.obligations += 1
+        res.undecided += 1
     else:
         s = Sym(prog, uw)
         T = None
@@ -87,6 +89,8 @@ def run(prog, ctx):
                 res.obligations += 1
                 if full:
                     res.discharged += 1
+                elif fx:
+                    res.undecided += 1
                 else:
                     res.violate("C18.K", "C18.K|hll|list-full", "the list is promoted under %s, expected `list is full`" % [(x[0], show(x[1])[:40]) for x in fx], uw.id)
             if cal.endswith("promote_container_to_array") and any("Set" in show(s.operand(a)) for a in site["args"]):
@@ -100,6 +104,8 @@ def run(prog, ctx):
                 gt = [x for x in fx if x[0] in ("Gt", "Lt") and len(x) == 3 and 4 in C.consts_in(("t", x[1], x[2])) and 3 in C.consts_in(("t", x[1], x[2]))]
                 if gt:
                     res.discharged += 1
+                elif fx:
+                    res.undecided += 1
                 else:
                     res.violate("C18.K", "C18.K|hll|set-load", "the set is promoted/grown under %s, expected 4*len > 3*capacity" % [(x[0], show(x[1])[:40], show(x[2])[:40] if len(x) > 2 else "") for x in fx], uw.id)
         # initial set size
@@ -144,8 +150,28 @@ def run(prog, ctx):
                         if ck and lk:
                             r, cex, n, why = formula.equivalent(cond, lambda env: int(4 * env[ck[0]] > 3 * (1 << env[lk[0]])), [{ck[0]: c, lk[0]: L} for L in range(0, 20) for c in (0, 1, (3 << L) // 4, (3 << L) // 4 + 1, 1 << L)])
                             ok = bool(r)
+        # by value over the struct's own counter and size fields, whatever they are called: grow reached <=> 4*count > 3*2^lg
+        if not ok:
+            ok = None
+            for b, site in cg.calls():
+                if (site.get("callee") or "").endswith("AuxMap::grow"):
+                    fp = C.facts_pred(s, b)
+                    flds = [(n_, t_) for n_, t_ in prog.adts.get("hll::aux_map::AuxMap", {}).get("variants", [{}])[0].get("fields", [])]
+                    cnt_f = [n_ for n_, t_ in flds if t_ in ("u32", "usize", "u64") and "lg" not in n_]
+                    lg_f = [n_ for n_, t_ in flds if t_ == "u8" and "size" in n_]
+                    if len(cnt_f) == 1 and len(lg_f) == 1:
+                        ok = True
+                        for L in range(2, 16):
+                            for c in (0, 1, (3 << L) // 4, (3 << L) // 4 + 1, 1 << L):
+                                holds, n_ev = fp({"@prog": prog, "self." + cnt_f[0]: c, "self." + lg_f[0]: L})
+                                if n_ev == 0:
+                                    ok = None
+                                elif ok is not None and holds != (4 * c > 3 * (1 << L)):
+                                    ok = False
         if ok:
             res.discharged += 1
+        elif ok is None:
+            res.undecided += 1
         else:
             res.violate("C18.K", "C18.K|aux|load", "the aux map does not grow exactly when 4*count > 3*size", cg.id)
         si = Sym(prog, ins)
@@ -153,6 +179,8 @@ def run(prog, ctx):
         stores = [x[0] for x in C.buffer_stores(prog, ins, "entries")]
         if cgb and stores and all(not si.reaches_exit_avoiding(sb, set(cgb)) for sb in stores):
             res.discharged += 1
+        elif not cgb or not stores:
+            res.undecided += 1
         else:
             res.violate("C18.K", "C18.K|aux|check", "an insertion into the aux map can skip the growth check", ins.id)
     # t-digest buffer
@@ -173,10 +201,14 @@ def run(prog, ctx):
         okp = bool(pushes) and bool(sw) and all(any(tu.dominates(w, p) for w in sw) for p in pushes)
         if okc:
             res.discharged += 1
+        elif not sw:
+            res.undecided += 1
         else:
             res.violate("C18.K", "C18.K|tdigest|compress", "TDigestMut::update does not compress exactly when the buffer holds 4 * centroids_capacity values", tu.id)
         if okp:
             res.discharged += 1
+        elif not sw or not pushes:
+            res.undecided += 1
         else:
             res.violate("C18.K", "C18.K|tdigest|push", "a value can be pushed to the t-digest buffer without the fullness check", tu.id)
     tm = C.fn_one(prog, "tdigest::sketch::TDigestMut", "make")
@@ -215,7 +247,8 @@ def run(prog, ctx):
     for owner, spec in specs.items():
         f = C.fn_one(prog, owner, "serialize")
         if f is None:
-            res.violate("C18.F", "C18.F|missing|" + owner, "%s::serialize no longer exists" % owner)
+            res.obligations += 1
+            res.undecided += 1
             continue
         s = Sym(prog, f)
         for b, site in f.calls():
@@ -246,6 +279,20 @@ def run(prog, ctx):
                 else:
                     res.undecided += 1
     res.rule("C18.F", n_f, 5, "HLL image size formulas")
+    # ---------------- C18.S frequent-items sizing (imported from C07.S): the configured maximum map size bounds the map that
+    # is actually built, and the capacity the sketch reports is 3/4 of it
+    try:
+        from . import C07
+        r7 = C07.run(prog, dict(ctx))
+        for v in r7.violations:
+            if v.rule == "C07.S" and "anchor-lost" not in v.key:
+                res.violate("C18.S", "C18.S|" + v.key, "frequent-items sizing: " + v.message, getattr(v, "fn", None), getattr(v, "span", None))
+        res.obligations += 1
+        if not any(v.rule == "C07.S" for v in r7.violations):
+            res.discharged += 1
+        res.rule("C18.S", r7.rules.get("C07.S", {}).get("instances", 0), 3, "frequent-items sizing formulas (imported from C07.S)")
+    except Exception as ex:
+        res.extra.setdefault("undecided_items", []).append("C18.S could not run C07: %r" % (ex,))
     res.explanation = ("who-may-grow over all %d functions of the crate for the six fixed-size buffers; capacity-rule guards and formulas for HLL "
                        "list/set/aux promotion, t-digest buffering and capacity; HLL image-size formulas evaluated over lg_k 4..=21" % len(allf))
     res.not_decided = "CPC's empirical 99.9% size bound"
